@@ -230,7 +230,7 @@ def harness_index(am):
             for k in range(li, end + 1):
                 s = lines[k]
                 if depth == 1:
-                    mm = re.match(r"^\s*(\w+)\s*=>", s)
+                    mm = re.match(r"^\s*(\w+)\s*(?:/\s*\d+\s*)?=>", s)
                     if mm:
                         name = mm.group(1)
                         if name in idx:
@@ -781,7 +781,7 @@ def main():
                 sc = os.path.join(VERIF, "scenarios", o["scenario"])
                 os.makedirs(os.path.join(am, "tests"), exist_ok=True)
                 shutil.copy(sc, os.path.join(am, "tests", os.path.basename(sc)))
-                cmd = ["cargo", "test", "--offline"] + (["--features", o["features"]] if o["features"] else []) + ["--test", os.path.basename(sc)[:-3]]
+                cmd = ["cargo", "test", "--offline"] + (["--features", o.get("scenario_features", o["features"])] if o.get("scenario_features", o["features"]) else []) + ["--test", os.path.basename(sc)[:-3]]
                 rc, out, dt, to = run_cmd(cmd, am, 900, dict(ENV, CARGO_TARGET_DIR=tdir_base + "-native"))
                 ran = "running " in out
                 rec["native"] = {"ran": ran, "reproduced": bool(ran and rc != 0 and "test result: FAILED" in out), "rc": rc, "output": out[-3000:], "scenario": o["scenario"]}
